@@ -37,6 +37,11 @@ the model; the generator (vf/c13_gen.py) stays away from them:
 * ``Pwrap`` / ``clip`` with mixed int receiver and float bounds (C15's matter);
 * Pselect/Preject predicates that do not return a ``bool``.
 
+Round 7b added Pwhile, Platch, Pprorate, Pproduct, Pwalk, Pgate, Ptrace,
+Pvalue, decorator-made patterns ('Pgen') and dict items; the help-file sentences
+they are written from are quoted at each function, undecided inputs raise
+OutOfDomain (see _pwalk, _pgate, compose).
+
 Every pull and every outer-loop iteration consumes fuel; running out of fuel
 means the expression is unproductive (e.g. ``Pn(Pseq([..], 0), inf)``) and the
 case is discarded by the caller, never judged.
@@ -82,6 +87,19 @@ class Ctx:
             raise OutOfFuel
 
 
+class NoInvalCtx:
+    """View of a context in which every pull is made without an input value
+    (what a generator function pulling its arguments with next() does)."""
+    inval = None
+
+    def __init__(self, parent):
+        self.parent = parent
+        self.leaves = parent.leaves
+
+    def tick(self, n=1):
+        self.parent.tick(n)
+
+
 def iv(inval):
     """Number carried by an input value (shared with the builder): None -> 0,
     a number -> itself, a dict -> its 'k' entry."""
@@ -96,20 +114,31 @@ class Inval:
     """The input value of pull number j of one stream: constant, or changing
     from pull to pull (base + j*delta; a dict carries it under 'k')."""
 
-    def __init__(self, base=None, delta=0):
+    def __init__(self, base=None, delta=0, gate=None):
+        # gate: for dict input values, the entry 'g' of pull j is
+        # gate[j % len(gate)] (None = no such entry in that pull)
         self.base, self.delta = base, delta
+        self.gate = list(gate) if gate and isinstance(base, dict) else None
 
     def at(self, j):
         if self.base is None:
             return None
         if isinstance(self.base, dict):
-            return {'k': self.base['k'] + j * self.delta}
+            d = {'k': self.base['k'] + j * self.delta}
+            if self.gate:
+                g = self.gate[j % len(self.gate)]
+                if g is not None:
+                    d['g'] = g
+            return d
         return self.base + j * self.delta
 
     def varies(self):
-        return self.base is not None and self.delta != 0
+        return self.base is not None and (
+            self.delta != 0 or (self.gate is not None and len(set(map(repr, self.gate))) > 1))
 
     def __repr__(self):
+        if self.gate:
+            return f'Inval({self.base!r}, {self.delta!r}, gate={self.gate!r})'
         return f'Inval({self.base!r}, {self.delta!r})'
 
 
@@ -121,18 +150,32 @@ def counter(n):
     return itertools.count() if n == INF else range(int(n))
 
 
+def compose(x, c):
+    """A dict is an event specification: as a stream element or embedded in
+    place it is composed with the input value of the pull (a copy of the input
+    dict updated with its entries; itself when there is no input value).  Any
+    other input value is outside the documented domain."""
+    if isinstance(x, dict):
+        if c.inval is None:
+            return x
+        if isinstance(c.inval, dict):
+            return {**c.inval, **x}
+        raise OutOfDomain('dict item with a non-dict input value')
+    return x
+
+
 def embed(x, c):
     if isnode(x):
         yield from den(x, c)
     else:
         c.tick()
-        yield x
+        yield compose(x, c)
 
 
 def const(x, c):
     while True:
         c.tick()
-        yield x
+        yield compose(x, c)
 
 
 def stream(x, c):
@@ -686,6 +729,179 @@ def _pnarop(node, c):
         yield f(x, *ys)
 
 
+
+# ---- classes added with the coverage-driven widening (round 7b) -------------
+
+def _pwhile(node, c):
+    # Pwhile(func, pattern): "repeatedly embed pattern as long as func returns
+    # true"; func is evaluated with the input value current at that moment
+    # (first pull; later the pull that finds the pattern exhausted)
+    _, op, t, x = node
+    while WHILE[op](iv(c.inval), t):
+        c.tick()
+        yield from embed(x, c)
+
+
+WHILE = {
+    'lt': lambda k, t: k < t,
+    'ge': lambda k, t: k >= t,
+    'always': lambda k, t: True,
+    'never': lambda k, t: False,
+}
+
+
+def _platch(node, c):
+    # Platch (Pclutch): "if trig is true it returns the next value from the
+    # pattern, otherwise the last value is repeated" (the first value is always
+    # taken); ends with the trigger stream or when a new value is needed and
+    # the pattern has none
+    _, x, trig = node
+    s = stream(x, c)
+    ts = stream(trig, c)
+    undefined = last = object()
+    for t in ts:
+        c.tick()
+        if t or last is undefined:
+            try:
+                last = next(s)
+            except StopIteration:
+                return
+        yield last
+
+
+def _pprorate(node, c):
+    # Pprorate (Prorate): "divide stream proportionally": a number p gives the
+    # pair p * v, (1 - p) * v; a list gives one part per element
+    _, x, prop = node
+    s = stream(x, c)
+    ps = stream(prop, c)
+    for v in s:
+        c.tick()
+        try:
+            p = next(ps)
+        except StopIteration:
+            return
+        if isinstance(p, (list, tuple)):
+            for el in p:
+                yield el * v
+        else:
+            yield p * v
+            yield (1 - p) * v
+
+
+PRODUCT = {
+    None: lambda vals: list(vals),          # the default function: the values
+    'list': lambda vals: list(vals),
+    'sum': lambda vals: sum(vals),
+    'dot': lambda vals: sum((i + 1) * v for i, v in enumerate(vals)),
+}
+
+
+def _pproduct(node, c):
+    # Pproduct (PstepNfunc): "the stream of pattern n+1 is iterated for every
+    # value of the stream of pattern n"; func gets the list of current values
+    _, fname, items = node
+    f = PRODUCT[fname]
+    last = len(items) - 1
+
+    def rec(level, vals):
+        for v in stream(items[level], c):
+            c.tick()
+            if level < last:
+                yield from rec(level + 1, vals + [v])
+            else:
+                yield f(vals + [v])
+    yield from rec(0, [])
+
+
+def _pwalk(node, c):
+    # Pwalk(list, steps, directions, start): the item at the index is embedded,
+    # then the index moves by step * direction; when that leaves the list the
+    # next direction is drawn (1: the step as it is, -1: reversed) and the
+    # index wraps around.  Not decided here (OutOfDomain): a boundary crossed
+    # with a negative step value ("as it is" and |step| * direction differ),
+    # an exhausted step or direction pattern (length of the walk / fallback).
+    _, items, steps, dirs, start = node
+    size = len(items)
+    idx = start
+    ss = stream(steps, c)
+    ds = stream(1 if isinstance(dirs, str) else dirs, c)
+    try:
+        d = next(ds)
+    except StopIteration:
+        raise OutOfDomain('Pwalk: empty direction pattern')
+    while True:
+        c.tick()
+        try:
+            raw = next(ss)
+        except StopIteration:
+            raise OutOfDomain('Pwalk: step pattern ended')
+        if type(raw) is not int or d not in (1, -1) or type(d) is bool:
+            raise OutOfDomain('Pwalk: step not an integer / direction not 1 or -1')
+        yield from embed(items[idx], c)
+        s = raw * d
+        if idx + s < 0 or idx + s >= size:
+            if raw < 0:
+                raise OutOfDomain('Pwalk: boundary crossed with a negative step value')
+            try:
+                d = next(ds)
+            except StopIteration:
+                raise OutOfDomain('Pwalk: direction pattern ended')
+            s = abs(s) * (1 if d > 0 else -1)
+        idx = (idx + s) % size
+
+
+def _pgate(node, c):
+    # Pgate(pattern, repeats, key): "advances its subpattern whenever key is
+    # true" in the input event, otherwise the last value is returned again
+    # (embedded in place each time); every repeat starts with a new value
+    _, x, repeats, key = node
+    if not isinstance(c.inval, dict):
+        raise OutOfDomain('Pgate without an input event')
+    for _ in counter(repeats):
+        c.tick()
+        s = stream(x, c)
+        undefined = out = object()
+        while True:
+            if not isinstance(c.inval, dict):
+                raise OutOfDomain('Pgate without an input event')
+            if c.inval.get(key, False) is True or out is undefined:
+                try:
+                    out = next(s)
+                except StopIteration:
+                    break
+            yield compose(out, c)
+
+
+def _ptrace(node, c):
+    # Ptrace / Pattern.trace: prints the values, which pass unchanged
+    _, form, x = node
+    yield from stream(x, c)
+
+
+def _pvalue(node, c):
+    # Pvalue(value): a pattern of the value - the value embedded in place
+    _, x = node
+    yield from embed(x, c)
+
+
+def _pgen(node, c):
+    # a pattern made with the `pattern` decorator from the generator function
+    # vf.c13_build.gfunc_mix: n values a * 2 + b, the arguments pulled with
+    # next() - i.e. without input value - ending with the shorter one
+    _, style, a, b, n = node
+    sub = NoInvalCtx(c)
+    sa, sb = stream(a, sub), stream(b, sub)
+    for _ in range(n):
+        c.tick()
+        try:
+            x = next(sa)
+            y = next(sb)
+        except StopIteration:
+            return
+        yield x * 2 + y
+
+
 SEM = {
     'Pseq': _pseq, 'Pser': _pser, 'Pn': _pn, 'Plen': _plen, 'Pdrop': _pdrop,
     'Pstutter': _pstutter, 'Pclump': _pclump, 'Pflatten': _pflatten,
@@ -698,6 +914,9 @@ SEM = {
     'Pfuncn': _pfuncn, 'Pfunc': _pfunc, 'Plazy': _plazy, 'Prout': _prout,
     'PfuncnI': _pfuncn_i, 'ProutI': _prout_i, 'PcollectI': _pcollect_i,
     'PlazyI': _plazy_i,
+    'Pwhile': _pwhile, 'Platch': _platch, 'Pprorate': _pprorate,
+    'Pproduct': _pproduct, 'Pwalk': _pwalk, 'Pgate': _pgate, 'Ptrace': _ptrace,
+    'Pvalue': _pvalue, 'Pgen': _pgen,
 }
 
 
